@@ -33,6 +33,9 @@ func (zzTimeoutErr) Error() string   { return "i/o timeout" }
 func (zzTimeoutErr) Timeout() bool   { return true }
 func (zzTimeoutErr) Temporary() bool { return true }
 
+// net's own timeout error matches context.DeadlineExceeded (net.timeoutError.Is)
+func (zzTimeoutErr) Is(err error) bool { return err == context.DeadlineExceeded }
+
 // raw transport / body-read errors as net/http produces them
 const (
 	zzRefused = iota
